@@ -4,7 +4,8 @@
      <od int|->  <off> <dt> <slope nan|bits> <inter> <magic> <alias -|compat|smallest> <data> <aff>
      <resolved int|-> <unsupported [codes]> <wfail> <scale_s> <scale_i> <nslabs> <exts [sizes]> <nmat>
      <mine_h> <mine_i> <mine_m> <oserr: the injected exception is an OSError (seek_tell catches it)>
-   ops:  run <k|-1> <case>    -> ok <res> n=<calls> st=<state> log=<calls>
+   ops:  run <k|-1|p<k>> <case> -> ok <res> n=<calls> st=<state> log=<calls>   (p<k>: every call from k on fails)
+         sweepp <case>        -> like sweep with the persistent oracle fail_from k
          sweep <case>         -> ok <clean run> | k=0 <res> n st | k=1 ... (every call of the clean run failing in turn)
    state = off/dt/slope/inter/magic/alias/data/aff; a call = <H|I|M><s|t|c|w:chunk> *)
 let sc_of_string s = if s = "nan" then SNan else SVal (z_of_string s)
@@ -49,8 +50,17 @@ let show (r, s) withlog =
 let handle op args = match op, args with
   | "run", k :: rest ->
     let f = parse rest in
+    if String.length k > 0 && k.[0] = 'p' then
+      "ok " ^ show (f (fail_from (nat_of_int (int_of_string (String.sub k 1 (String.length k - 1)))))) true
+    else
     let k = int_of_string k in
     "ok " ^ show (f (if k < 0 then healthy else fail_at (nat_of_int k))) true
+  | "sweepp", rest ->
+    let f = parse rest in
+    let (r, s) = f healthy in
+    let n = int_of_nat s.rk in
+    let parts = List.init (n + 1) (fun k -> "k=" ^ string_of_int k ^ " " ^ show (f (fail_from (nat_of_int k))) false) in
+    "ok " ^ show (r, s) true ^ " | " ^ String.concat " | " parts
   | "sweep", rest ->
     let f = parse rest in
     let (r, s) = f healthy in
